@@ -204,10 +204,13 @@ func pickUnknown(lv *level, cands []uint64) uint64 {
 // NDN packet format, "TLV evolvability": types 0..31 are critical; above that, odd types are
 // critical and even types are non-critical. Each list probes one side of one rule.
 var (
-	nonCritEven   = []uint64{0xf0, 0xf2, 0xf4, 0xf6, 0xf8, 0xfa}       // even, 1-byte type
+	nonCritEven   = []uint64{0xf0, 0xf2, 0xf4, 0xf6, 0xf8, 0xfa}        // even, 1-byte type
 	nonCritLowest = []uint64{0x20, 0x3fe, 0x400, 0x10000, 0x402, 0x404} // 32 = smallest non-critical; then 3- and 5-byte types
 	nonCritWide   = []uint64{0x3fe, 0x400, 0x10000, 0x402, 0x404, 0x406}
 	critLowEven   = []uint64{0x1e, 0x1c, 0x10, 0x0e, 0x04, 0x02, 0x1a} // <= 31 and even: critical only by the range rule
 	critOddHigh   = []uint64{0xf1, 0x3ff, 0xf3, 0x10001, 0xf5, 0xf7}   // > 31 and odd: critical only by the parity rule
 	critOddWide   = []uint64{0x3ff, 0x10001, 0x401, 0x403, 0x405, 0x407}
+	// type numbers that need the 9-octet form (0xff + 8 octets)
+	nonCrit9 = []uint64{1 << 32, 1 << 63, 1<<64 - 2, 1<<32 + 2}
+	crit9    = []uint64{1<<64 - 1, 1<<32 + 1, 1<<63 + 1, 1<<32 + 3}
 )
